@@ -7,7 +7,7 @@ name, prop, wt, mdir, democmd, needs = sys.argv[1:7]
 places = [p.split(":") for p in sys.argv[7:]]
 env = dict(os.environ, GOFLAGS="-mod=mod", GOPROXY="off", GOSUMDB="off", GOTOOLCHAIN="local")
 def sh(cmd):
-    p = subprocess.run(cmd, shell=True, cwd=wt, env=env, capture_output=True, text=True)
+    p = subprocess.run(cmd, shell=True, cwd=wt, env=env, capture_output=True, text=True, errors="replace")
     return p.returncode, (p.stdout + p.stderr)[-1500:]
 assert sh("git status --porcelain --untracked-files=no")[1].strip() == "", "worktree not clean"
 patch = os.path.join(mdir, "patch.diff")
@@ -24,7 +24,7 @@ suite = []
 import time, random
 for i in range(2):
     for attempt in range(10):
-        p = subprocess.run("go test -vet=off -count=1 -timeout 25m ./...", shell=True, cwd=wt, env=env, capture_output=True, text=True)
+        p = subprocess.run("go test -vet=off -count=1 -timeout 25m ./...", shell=True, cwd=wt, env=env, capture_output=True, text=True, errors="replace")
         rc, out = p.returncode, p.stdout + p.stderr
         if "address already in use" in out:   # another suite holds port 5140 right now
             time.sleep(random.randint(5, 25)); continue
